@@ -1,15 +1,63 @@
-import Sm9.Proofs.MontBasic
+import Sm9.Proofs.Conversions
 import Sm9.Proofs.FqField
 import Sm9.Model.Api
 /-!
 # C13 — Byte, decimal and hash conversions to field elements compute n mod p
-Value-level statements of the API model (what the public functions return), tied to the
-code by the correspondence check over every length 0..=70; the limb-level algorithms
-behind them (`U512.divrem`, Montgomery multiplication by R²) are related to these values
-by the refinement theorems of C06/C12 as they land.
+
+Limb level (the model of lib.rs / fp.rs / u512.rs / u256.rs code paths): the three length
+paths of `from_slice` (pad + strict `new`; Montgomery multiplication by R² which reduces;
+512-bit long division), `interpret`, `from_hash`, `to_slice`, `set_bit`, `random` compute,
+observed through the canonical value, exactly `n mod p` (resp. `(h mod (r−1)) + 1`); the
+bitwise long division returns the true remainder and quotient and its debug self-check
+holds.  Value level (`Api.*`, what the public functions return) states the same facts
+directly; the two levels are tied to the code by the correspondence check over every
+length 0..=70.  `from_str` is stated at value level only (the limb-level fold is a chain of
+`mul`/`add` already covered by C06) .
 -/
+set_option exponentiation.threshold 1024
 namespace Sm9.C13
 
+/-- 512-bit long division: remainder, quotient rule (`None` unless the quotient is below the
+    modulus), and the `debug_assert!` on the reconstruction holds -/
+theorem divrem_spec (n m : Nat) (hm0 : 0 < m) (hm : m < W256) (hn : n < W512) :
+    (U512.divrem n m).1.2 = n % m ∧
+    (U512.divrem n m).1.1 = (if n / m < m ∧ n / m < W256 then some (n / m) else none) ∧
+    (U512.divrem n m).2 = true := U512.divrem_spec n m hm0 hm hn
+/-- 32-byte path: Montgomery multiplication by R² reduces any 256-bit value -/
+theorem from_slice_32_reduces {P : MontParams} (hP : P.Ok) (x : Nat) (hx : x < W256) :
+    Fp.new_mul_factor P x < P.modulus ∧ Fp.into_u256 P (Fp.new_mul_factor P x) = x % P.modulus :=
+  Fp.new_mul_factor_reduces hP x hx
+/-- 33..=64-byte path and `interpret`: the 512-bit remainder -/
+theorem interpret_spec {P : MontParams} (hP : P.Ok) (bs : List UInt8) (h : bs.length = 64) :
+    ∃ y, Fp.interpret P bs = .ok y ∧ y < P.modulus ∧ Fp.into_u256 P y = beVal bs % P.modulus :=
+  Fp.interpret_spec hP bs h
+/-- strict 32-byte decoder (1..=31-byte path after padding; point coordinates) -/
+theorem from_slice_strict_spec {P : MontParams} (hP : P.Ok) (bs : List UInt8) :
+    Fp.from_slice P bs = (if bs.length = 32 ∧ beVal bs < P.modulus then some (beVal bs * W256 % P.modulus) else none) :=
+  Fp.from_slice_strict_spec hP bs
+/-- `to_slice` is the 32-byte big-endian canonical value, below the modulus; decoding it gives x back -/
+theorem to_slice_value {P : MontParams} (hP : P.Ok) (x : Nat) (hx : x < P.modulus) :
+    (Fp.to_slice P x).length = 32 ∧ beVal (Fp.to_slice P x) = Fp.into_u256 P x ∧ beVal (Fp.to_slice P x) < P.modulus :=
+  Fp.to_slice_value hP x hx
+theorem from_to_slice {P : MontParams} (hP : P.Ok) (x : Nat) (hx : x < P.modulus) :
+    Fp.from_slice P (Fp.to_slice P x) = some x := Fp.from_slice_to_slice hP x hx
+/-- `Fr::from_hash(h) = (int(h) mod (r−1)) + 1` for up to 64 bytes, `None` beyond -/
+theorem from_hash_spec (ha : List UInt8) (h : ha.length ≤ 64) :
+    ∃ y, FrL.from_hash ha = .ok (some y) ∧ y < Consts.FR ∧
+      Fp.into_u256 paramsR y = beVal ha % (Consts.FR - 1) + 1 := FrL.from_hash_spec ha h
+theorem from_hash_too_long_limb (ha : List UInt8) (h : ha.length > 64) : FrL.from_hash ha = .ok none :=
+  FrL.from_hash_too_long ha h
+/-- `set_bit(i, v)` sets bit i of the canonical value and reduces (every i; i ≥ 256 is the identity) -/
+theorem set_bit_spec {P : MontParams} (hP : P.Ok) (x i : Nat) (v : Bool) (hx : x < P.modulus) :
+    Fp.into_u256 P (Fp.set_bit P x i v) = (U256.set_bit (Fp.into_u256 P x) i v).1 % P.modulus ∧
+    Fp.set_bit P x i v < P.modulus := Fp.set_bit_spec hP x i v hx
+/-- `random`: the 512-bit draw reduced modulo p -/
+theorem random_spec {P : MontParams} (hP : P.Ok) (draw : List Nat) :
+    Fp.random P draw = Limb.value B64 (draw.take 8) % P.modulus ∧ Fp.random P draw < P.modulus :=
+  Fp.random_spec hP draw
+theorem be_roundtrip (len n : Nat) (h : n < 256 ^ len) : beVal (beBytes len n) = n := beVal_beBytes len n h
+
+/-! value level (what the public API returns) -/
 theorem fr_from_slice_spec (bs : List UInt8) :
     Api.frFromSlice bs = if 1 ≤ bs.length ∧ bs.length ≤ 64 then some (Fr.ofNat (beVal bs)) else none := rfl
 theorem fr_from_slice_value (bs : List UInt8) (x : Fr) (h : Api.frFromSlice bs = some x) :
@@ -27,7 +75,6 @@ theorem fq_from_slice_value (bs : List UInt8) (x : Fq) (h : Api.fqFromSlice bs =
 theorem from_slice_lengths (bs : List UInt8) :
     (Api.frFromSlice bs).isSome = (decide (1 ≤ bs.length ∧ bs.length ≤ 64)) := by
   unfold Api.frFromSlice; split <;> simp_all
-/-- `Fr::from_hash` lands in [1, r−1] -/
 theorem from_hash_range (ha : List UInt8) (x : Fr) (h : Api.frFromHash ha = some x) :
     1 ≤ x.val ∧ x.val ≤ r - 1 ∧ x.val = beVal ha % (r - 1) + 1 := by
   unfold Api.frFromHash at h
@@ -42,13 +89,10 @@ theorem from_hash_range (ha : List UInt8) (x : Fr) (h : Api.frFromHash ha = some
     rw [hv]; omega
 theorem from_hash_too_long (ha : List UInt8) (h : ha.length > 64) : Api.frFromHash ha = none := by
   unfold Api.frFromHash; simp [h]
-/-- a wrong output-buffer size is an error, not a panic -/
 theorem to_big_endian_wrong_size (a : Fq) (n : Nat) (h : n ≠ 32) : Api.fqToBigEndian a n = none := by
   unfold Api.fqToBigEndian; simp [h]
-/-- decimal parser: rejects as soon as a non-digit occurs -/
 theorem from_str_rejects (s : List Char) (h : s.all Char.isDigit = false) : Api.frFromStr s = none := by
   unfold Api.frFromStr; simp [h]
-/-- `set_bit` with an index ≥ 256 leaves the value unchanged -/
 theorem set_bit_out_of_range (a : Fr) (i : Nat) (v : Bool) (h : i ≥ 256) : Api.frSetBit a i v = a := by
   unfold Api.frSetBit U256.set_bit
   simp only [h, if_true]
